@@ -146,6 +146,17 @@ int main(int argc, char** argv) {
                 t = Date(y, m, d);
             }
             for (int kind = 1; kind <= 32; kind++) { single(c.out, t.year(), t.month(), t.day(), kind); stats.add("single_steps"); }
+            // Date::add_days / subtract_days (the end date of a pesticide treatment is start + num_days, C10):
+            // spans that cross New Years with a change of leap status and run past February
+            for (int q = 0; q < 3; q++) {
+                Date s0 = q == 0 ? t : random_date(rng, false);
+                int n = rng.coin(50) ? rng.in(60, 500) : (rng.coin(50) ? rng.in(0, 59) : rng.in(501, 1600));
+                Date s1(s0); s1.add_days((unsigned)n);
+                c.out << "date.adddays " << n << " " << ds(s0) << " => " << ds(s1) << "\n";
+                Date s2(s0); s2.subtract_days((unsigned)n);
+                c.out << "date.subdays " << n << " " << ds(s0) << " => " << ds(s2) << "\n";
+                stats.add("multi_day_additions", 2);
+            }
             Date a = random_date(rng, false), b = rng.coin(30) ? a : random_date(rng, false);
             if (rng.coin(30)) { b = a; if (rng.coin()) b.add_day(); else b.subtract_day(); }
             c.out << "date.cmp " << ds(a) << " " << ds(b) << " => " << (a < b) << (a <= b) << (a > b) << (a >= b) << (a == b) << (a != b) << "\n";
